@@ -651,7 +651,7 @@ def main(argv):
                     samples.append({k: v for k, v in pick[len(pick) // 3].items() if k not in ("id", "item")})
     shutil.rmtree(os.path.join(WORK, scratch), ignore_errors=True)
     decided = sum(v for k, v in notes.items() if "minimal_ball_decided" in k)
-    if not replay and not V.violations and not V.known_hits:
+    if not replay and not V.violations:
         # nothing was rejected: make sure the interesting situations were really met
         if kinds.get("hull", 0) < 800 or kinds.get("cyl", 0) < 100 or kinds.get("obb", 0) < 800 \
                 or kinds.get("sphere", 0) < 800 or stats.get("hulls_with_an_input_that_is_no_vertex", 0) < 100:
